@@ -9,6 +9,7 @@ from lib import vlib
 
 NVARS = 4            # user variables u0..u3
 LETBASE = 40         # model variables standing for let-bound names
+FUEL = 24            # loop re-entries + exits along one nesting chain; generated loops run at most twice (3 units per level)
 ARGBASE = 100        # model variables standing for the evaluated arguments of a binary call (log2 k a b)
 CLASSES = 5          # exception classes 0 (TypeError), E1..E4
 SUBPAIRS = [(2, 1), (3, 1)]   # E2 <: E1, E3 <: E1  (reflexivity is built in)
@@ -856,7 +857,7 @@ def _model_exprs(progs, what):
                 exprs.append("model_renames %s" % t)
             else:
                 fn = "model_run" if what == "run" else "ref_run"
-                exprs.append("%s %s %s %d %s %s" % (fn, coq_fault(p["fault"]), COQ_SUB, p.get("fuel", 8),
+                exprs.append("%s %s %s %d %s %s" % (fn, coq_fault(p["fault"]), COQ_SUB, p.get("fuel", FUEL),
                                                     coq_list([coq_val(v) for v in p["vals"]]), t))
     finally:
         _COQ_MODE[0] = "run"
@@ -868,7 +869,8 @@ def model_eval_many(progs, whats):
     exprs = []
     for w in whats:
         exprs += _model_exprs(progs, w)
-    shard = max(60, min(400, -(-len(exprs) // max(1, vlib.NPROC - 2))))
+    # starting coqc and loading the libraries costs more than evaluating some hundred cases: few, large shards
+    shard = max(400, -(-len(exprs) // 4))
     res = vlib.coq_eval(IMPORTS, "Open Scope string_scope.", exprs, tag="cmp", shard=shard)
     res = [r.strip().strip('"') for r in res]
     n = len(progs)
@@ -990,6 +992,10 @@ def differential(chk, progs, judge=None):
             chk.count("skipped:" + out)
             if out != "TIMEOUT":
                 chk.fail("compiled-code-" + out.lower(), inp, ir, f, how)
+            continue
+        if r.startswith("TIMEOUT") or f.startswith("TIMEOUT"):
+            # the theorem reads "unless the reference run exhausts its fuel": nothing is claimed about such a run
+            chk.count("skipped:model fuel exhausted")
             continue
         if ir != r and out != "NAMEERROR":
             chk.disagree("Compiler.PySem vs CPython on the compiled code", src, r, ir)
